@@ -41,6 +41,7 @@ class Env(object):
         self.done = {}
         self.problems = []
         self.mode_seen = []
+        self.budget = 400           # task bodies started; the checked programs have < 20 tasks
 
     def __repr__(self):
         return "<Env>"
@@ -63,7 +64,7 @@ def make_slot(env, sid, slot):
     if k == "meth":
         return Holder(3).m.asynq(slot[1], env, sid)
     if k == "proxy":
-        return proxied.asynq(slot[1], env, sid)
+        return PROXY[0].asynq(slot[1], env, sid)
     raise AssertionError(slot)
 
 
@@ -129,6 +130,9 @@ def run_node(env, st, node):
 
 def _body(td, env, sid):
     st = {"sid": sid, "nyield": 0, "trace": []}
+    env.budget -= 1
+    if env.budget < 0:
+        raise RuntimeError("harness: runaway program (more task bodies started than the program has tasks)")
     env.mode_seen.append(is_asyncio_mode())
     try:
         r = yield from run_node(env, st, td.body)
@@ -162,9 +166,16 @@ class FalsyHolder(Holder):
         return 0
 
 
-@async_proxy()
-def proxied(td, env, sid):
-    return afn.asynq(td, env, sid)
+def new_proxied():
+    """a fresh proxy function per checked program: whatever a decorator object remembers between calls starts empty on
+    every path (and in the concrete replay), so that paths are independent of each other"""
+    @async_proxy()
+    def proxied(td, env, sid):
+        return afn.asynq(td, env, sid)
+    return proxied
+
+
+PROXY = [None]
 
 
 class ARef(Ref):
@@ -204,6 +215,7 @@ def check(td, entry=0, sig=None):
     rec.clear_fail()
     prog.reset_globals()
     logging.disable(logging.CRITICAL)
+    PROXY[0] = proxied = new_proxied()
     try:
         outs = []
         for mode in ("asynq", "asyncio"):
